@@ -378,10 +378,17 @@ type outRow struct {
 	nul bool
 }
 
+// linInt is a linearly interpolated value of an integer column: the exact
+// point on the line. Which neighbouring integer a query returns for it (the
+// rounding of the conversion) is not part of the semantics.
+type linInt float64
+
 func fmtVal(v interface{}) string {
 	switch x := v.(type) {
 	case nil:
 		return "null"
+	case linInt:
+		return "~" + strconv.FormatFloat(float64(x), 'g', -1, 64)
 	case float64:
 		return strconv.FormatFloat(x, 'g', -1, 64)
 	case int64:
@@ -653,7 +660,11 @@ func reference(data map[string]*series, s *spec) string {
 						rows = append(rows, outRow{t: w.start * sec, v: a + (b-a)*float64(i-pi)/float64(ni-pi)})
 					case int64:
 						b := wins[ni].v.(int64)
-						rows = append(rows, outRow{t: w.start * sec, v: a + (b-a)*int64(i-pi)/int64(ni-pi)})
+						if (b-a)*int64(i-pi)%int64(ni-pi) == 0 {
+							rows = append(rows, outRow{t: w.start * sec, v: a + (b-a)*int64(i-pi)/int64(ni-pi)})
+						} else {
+							rows = append(rows, outRow{t: w.start * sec, v: linInt(float64(a) + float64(b-a)*float64(i-pi)/float64(ni-pi))})
+						}
 					default:
 						rows = append(rows, outRow{t: w.start * sec, nul: true})
 					}
@@ -1009,8 +1020,21 @@ func sameResult(a, b string, tolerant bool) bool {
 		if ia < 0 || ib < 0 || fa[i][:ia] != fb[i][:ib] {
 			return false
 		}
-		x, ex := strconv.ParseFloat(fa[i][ia+1:], 64)
-		y, ey := strconv.ParseFloat(fb[i][ib+1:], 64)
+		va, vb := fa[i][ia+1:], fb[i][ib+1:]
+		if strings.HasPrefix(va, "~") || strings.HasPrefix(vb, "~") {
+			// an interpolated integer: either neighbour of the exact value
+			if strings.HasPrefix(va, "~") {
+				va, vb = vb, va
+			}
+			n, en := strconv.ParseInt(va, 10, 64)
+			e, ee := strconv.ParseFloat(vb[1:], 64)
+			if en != nil || ee != nil || math.Abs(float64(n)-e) >= 1+1e-9*math.Abs(e) {
+				return false
+			}
+			continue
+		}
+		x, ex := strconv.ParseFloat(va, 64)
+		y, ey := strconv.ParseFloat(vb, 64)
 		if ex != nil || ey != nil {
 			return false
 		}
